@@ -15,7 +15,10 @@
 (*   sequence of quarter ticks 0..4 aligned with tags, ftags / fscs |->    *)
 (*   tags / scs without the members outside the vocabulary]                *)
 (* A "pair" case:  [kind |-> "pair", cls |-> class number 1..8,            *)
-(*   x, y |-> field-choice vectors] -- two objects of one hashable class.  *)
+(*   x, y |-> field-choice vectors, px, py |-> provenances] -- two objects *)
+(*   of one hashable class, each with the history by which it came to hold *)
+(*   its fields (see Provs below): data objects are not only born in       *)
+(*   constructors, they are also copied, updated, assigned to, re-validated.*)
 (***************************************************************************)
 EXTENDS Lattice
 
@@ -107,8 +110,38 @@ HashKey(mode, cls, x, who) ==
       [] OTHER -> <<>>                                                    \* constant hash: sound too
 LawHashSound(mode, cls, x, y) == ModelEq(cls, x, y) => HashKey(mode, cls, x, 1) = HashKey(mode, cls, y, 2)
 
+(***************************************************************************)
+(* Provenance: how an object came to hold the fields of its vector.        *)
+(*   fresh        built by the constructor                                 *)
+(*   copy_update  a donor (the vector with field f set to the cyclically   *)
+(*                next value of its domain) is built and HASHED, then      *)
+(*                donor.model_copy(update={field f: the vector's value})   *)
+(*   assign       the donor is built and HASHED, then field f is assigned  *)
+(*                (the models are not frozen -- except Term)               *)
+(*   deep_copy    the object is built and HASHED, then model_copy(deep=True)*)
+(*   revalidate   the object is built and HASHED, then                     *)
+(*                model_validate(model_dump(exclude_unset=True))  (the full *)
+(*                dump of a Term re-validates its aliased fields as extra  *)
+(*                attributes and compares unequal: not this property's     *)
+(*                subject, and it would make the pairs trivial)            *)
+(* Hashing BEFORE the derivation step is the point: anything an object     *)
+(* remembers about its hash travels with copies and survives assignments.  *)
+(***************************************************************************)
+Prov(m, f) == [mode |-> m, f |-> f]
+Fresh == Prov("fresh", 0)
+Frozen(cls) == cls = 1                                   \* Term: ConfigDict(frozen=True)
+\* Term's 4th field (an extra attribute) can be added by an update but not removed, so it is never the donor field
+DonorFields(cls) == IF cls = 1 THEN 1..3 ELSE DOMAIN FieldDom[cls]
+Provs(cls) == {Fresh, Prov("deep_copy", 0), Prov("revalidate", 0)} \cup
+              {Prov(m, f) : m \in {"copy_update"} \cup (IF Frozen(cls) THEN {} ELSE {"assign"}), f \in DonorFields(cls)}
+Donor(cls, x, p) == IF p.f = 0 THEN x ELSE [x EXCEPT ![p.f] = (x[p.f] % FieldDom[cls][p.f]) + 1]
+\* the instance __dict__ (and whatever was memoised in it) is carried by these derivations, not by re-validation
+CarriesDict(p) == p.mode \in {"copy_update", "assign", "deep_copy"}
+Near(cls, x, y) == ModelEq(cls, x, y) \/ Cardinality({f \in DOMAIN x : x[f] # y[f]}) <= 1
+
 PairClauses == {"EqualImpliesEqualHash", "SetAndDictMembership"}
-(* r = [eq, eq_rev, hash_eq, in_set, set_size, dict_hit, dict_size] observed on two separately built objects *)
+(* r = [eq, eq_rev, hash_eq, in_set, set_size, dict_hit, dict_size] observed on two separately built objects,   *)
+(* each brought about by its provenance; the clauses do not depend on the history -- that is the contract        *)
 PairClauseHolds(cl, r) ==
     CASE cl = "EqualImpliesEqualHash" -> (r.eq \/ r.eq_rev) => r.hash_eq
       [] cl = "SetAndDictMembership"  ->
